@@ -661,7 +661,17 @@ where
         ]);
         match f {
             "rescale" => {
-                let lam = if g == "G1" { nat(&rand_elem(r, &fq)) } else { rand_f2(r, &fq) };
+                // random factor, or one of the special ones -1 (Z^2 = 1), 2
+                let z6 = vec![0u64; 6];
+                let sp = match r.below(4) {
+                    0 => Some(w_sub_small(&fq.p, 1)),
+                    1 => Some(w_add_small(&z6, 2)),
+                    _ => None,
+                };
+                let lam = match sp {
+                    Some(w) => if g == "G1" { nat(&w) } else { f2(&w, &z6) },
+                    None => if g == "G1" { nat(&rand_elem(r, &fq)) } else { rand_f2(r, &fq) },
+                };
                 ops.push(json!({"op": "cm", "g": g, "fn": "rescale", "d": d, "lam": lam, "cls": "rand"}));
             }
             "batch" => {
